@@ -645,3 +645,106 @@ def _(it, a, info):
 @smodel('Condvar::notify_one', 'Condvar::notify_all')
 def _(it, a, info):
     return unit()
+
+
+# ----------------------------------------------------------------------------------------- logical threads in SE harnesses
+import threading
+
+
+class CoAbort(BaseException):
+    pass
+
+
+class Co:
+    """A logical thread of a sequential harness (e.g. the connection thread): runs on its own OS thread but strictly
+    alternates with the harness thread (baton passing), so execution stays deterministic. A blocking receive inside it parks
+    the logical thread and returns control to the harness; resume() continues it."""
+    current = None
+
+    def __init__(self, fn):
+        self.fn = fn
+        self.state = 'new'          # new | running | parked | done | failed
+        self.result = None
+        self.exc = None
+        self.why = None
+        self._go = threading.Semaphore(0)
+        self._back = threading.Semaphore(0)
+        self._abort = False
+        self.thread = None
+
+    def _run(self):
+        self._go.acquire()
+        try:
+            if self._abort:
+                raise CoAbort()
+            Co.current = self
+            self.result = self.fn()
+            self.state = 'done'
+        except CoAbort:
+            self.state = 'aborted'
+        except BaseException as e:
+            self.exc = e
+            self.state = 'failed'
+        finally:
+            Co.current = None
+            self._back.release()
+
+    def resume(self):
+        """run until done or parked. returns state"""
+        if self.state == 'new':
+            import sys
+            threading.stack_size(256 * 1024 * 1024)
+            self.thread = threading.Thread(target=self._run, daemon=True)
+            self.thread.start()
+        elif self.state != 'parked':
+            return self.state
+        self.state = 'running'
+        self._go.release()
+        self._back.acquire()
+        if self.state == 'failed':
+            e = self.exc
+            self.exc = None
+            raise e
+        return self.state
+
+    def park(self, why):
+        """called from inside the logical thread"""
+        self.state = 'parked'
+        self.why = why
+        Co.current = None
+        self._back.release()
+        self._go.acquire()
+        if self._abort:
+            raise CoAbort()
+        Co.current = self
+        self.state = 'running'
+
+    def abort(self):
+        if self.state == 'parked' or self.state == 'new':
+            self._abort = True
+            if self.state == 'new' and self.thread is None:
+                self.state = 'aborted'
+                return
+            self._go.release()
+            self._back.acquire()
+
+
+_seq_recv_plain = SEQ['Receiver::recv']
+
+
+def _seq_recv_co(it, a, info):
+    w = world(it)
+    r = deref(it, a[0])
+    ch = w.chans[r.oid]
+    while True:
+        if ch['q']:
+            return Ok(ch['q'].pop(0))
+        if ch['senders'] <= 0:
+            return Err(Struct('RecvError', []))
+        co = Co.current
+        if co is None:
+            raise Blocked('Receiver::recv on an empty channel whose sender is still alive', r.oid)
+        co.park(('recv', r.oid))
+
+
+SEQ['Receiver::recv'] = _seq_recv_co
